@@ -169,9 +169,10 @@ class Ctx:
         src = src or os.path.join(COQ, "props", self.pid + ".v")
         text = open(src).read()
         names = re.findall(r"^(?:Theorem|Corollary)\s+([A-Za-z0-9_']+)", text, re.M)
-        dst = self.write("Prop_%s.v" % self.pid, text)
+        base = os.path.splitext(os.path.basename(src))[0]
+        dst = self.write("Prop_%s.v" % base, text)
         ok, out = self.coqc(dst, timeout=timeout)
-        self.checker_cmds.append("coqc %s coq/props/%s.v" % (" ".join(self.coq_args()[:6]), self.pid))
+        self.checker_cmds.append("coqc %s coq/props/%s.v" % (" ".join(self.coq_args()[:6]), base))
         failed_at = None
         if not ok:
             m = re.search(r'line (\d+), characters', out)
